@@ -108,6 +108,8 @@ LmHolds(lm, n, c) ==
   CASE lm[1] = "lnum" -> Cmp(lm[2], n, lm[3])
     [] lm[1] = "cmatch" -> IF lm[2] THEN FullMatch(lm[3], c) ELSE Matches(lm[3], c)
     [] lm[1] = "cempty" -> c = <<>>
+    \* the contents of a line as a text of its own: one line unless it is empty (it has no new-line)
+    [] lm[1] = "cnum" -> Cmp(lm[2], IF c = <<>> THEN 0 ELSE 1, lm[3])
     [] lm[1] = "lconst" -> lm[2]
     [] lm[1] = "lnot" -> ~LmHolds(lm[2], n, c)
     [] lm[1] = "land" -> LmHolds(lm[2], n, c) /\ LmHolds(lm[3], n, c)
@@ -176,7 +178,7 @@ LineMatchers == << <<"lnum", "==", 1>>, <<"lnum", ">=", 2>>, <<"lnum", "!=", 2>>
                    <<"cmatch", FALSE, Re(FALSE, <<<<"a", "1">>>>, FALSE)>>,
                    <<"cmatch", TRUE, Re(FALSE, <<<<"a", "+">>>>, FALSE)>>,
                    <<"cmatch", FALSE, Re(TRUE, <<<<"b", "1">>>>, TRUE)>>,
-                   <<"cempty">>, <<"lconst", TRUE>>, <<"lconst", FALSE>>,
+                   <<"cempty">>, <<"lconst", TRUE>>, <<"lconst", FALSE>>, <<"cnum", "==", 1>>,
                    <<"lnot", <<"cempty">>>>,
                    <<"land", <<"lnum", ">=", 2>>, <<"cmatch", FALSE, Re(FALSE, <<<<"a", "1">>>>, FALSE)>>>>,
                    <<"lor", <<"lnum", "==", 1>>, <<"cempty">>>> >>
@@ -219,6 +221,9 @@ Matchers ==
         <<"and", <<"not", <<"empty">>>>, <<"or", <<"numlines", "==", 1>>, <<"matches", FALSE, Re(FALSE, <<<<"b", "1">>>>, FALSE)>>>>>>,
         <<"or", <<"empty">>, <<"every", <<"cempty">>>>>>,
         <<"on", <<"seq", <<"strip">>, <<"stripnl">>>>, <<"equals", <<CA>>>>>> >>
+  \* a text held in memory (the output of a transformer, kept for two matchers) counted by each of them
+  \o << <<"on", <<"grep", FALSE, Re(FALSE, <<<<"dot", "1">>>>, FALSE)>>, <<"and", <<"numlines", "==", 2>>, <<"numlines", ">=", 2>>>>>>,
+        <<"on", <<"filter", <<"lconst", TRUE>>>>, <<"or", <<"numlines", "==", 1>>, <<"numlines", "==", 2>>>>>> >>
   \* the output of every transformer of the strip family read LINE BY LINE (an output that is empty has no line)
   \o [j \in 1..9 |->
         LET tr == <<<<"strip">>, <<"stripts">>, <<"stripnl">>>>[((j - 1) \div 3) + 1]
